@@ -55,6 +55,15 @@ theorem c09_frame :
     ∀ m ∈ Generated.matchMutations, m.2.1 = "scope" ∨ (m.1, m.2.1) ∈ Generated.matchFresh := by
   decide
 
+/-- **The matcher keeps nothing between calls** (facts, re-checked on every run): no function
+    or method of glom/matching.py writes to an object bound at module level (no cache of
+    `isinstance` answers, no registry, no counter) or rebinds a global; together with
+    `c10_specs_immutable` (no method writes to `self` after `__init__`) a `glom(target, m)` call
+    can depend on the Match object as built, the target, and the interpreter's own state (the
+    class relation) *at that moment* only — which is how `c09_history_checks` judges it. -/
+theorem c09_no_module_state : Generated.matchModuleWrites = [] ∧ Generated.combSelfWrites = [] := by
+  decide
+
 /-! ### refinement and checker -/
 
 /-- **Refinement**: the model computes the denoted verdict — the expected value on a pass,
@@ -116,6 +125,48 @@ theorem c09_error_class (env : Env) (hwf : WF env = true) (p : Spec) (t : V)
     simp [isPass, dfltOK] at this
   · exact Or.inl ⟨e, og, by rw [h1], by rw [h2], hcl⟩
   · exact Or.inr ⟨e, by rw [h1], hg⟩
+
+/-- a calm evaluation cannot fault: no comparison between incomparable values is possible, no
+    rebuilt set gets an unhashable member, every Check could be constructed -/
+theorem c09_calm_no_fault (ct : ClassTable) (p : Spec) (d : Option Arg) (t : V) (h : calm ct p t = true) :
+    isFault (denote ct (.matchS p d) t).1 = false :=
+  calm_den ct (.matchS p d) t (by simpa [calm] using h)
+
+/-- **Exactly** (sound and complete, no escape clause): on a calm pair — a condition on pattern
+    and target alone — Match succeeds if and only if the target conforms … -/
+theorem c09_exact (env : Env) (hwf : WF env = true) (p : Spec) (t : V)
+    (hc : ctorErr p = none) (hd : constDefaults p = true) (hcalm : calm env.cls p t = true) :
+    (∃ r, (matchGlom env p none t).1 = .ok r) ↔ conforms env.cls p t = true := by
+  constructor
+  · rintro ⟨r, h⟩; exact c09_sound env hwf p t r hc hd h
+  · intro h
+    have hnf := c09_calm_no_fault env.cls p none t hcalm
+    have hr := c09_refines env hwf p none t hc
+    rcases hr.cases with ⟨a, l, h1, h2⟩ | ⟨e, og, l, h1, h2, _⟩ | ⟨e, l, h1, h2, hg⟩
+    · exact ⟨a, by rw [h1]⟩
+    · have := c09_denote_conforms env.cls p none t hc hd hnf
+      rw [h2, h] at this
+      simp [isPass] at this
+    · rw [h2] at hnf; simp [isFault] at hnf
+
+/-- … and otherwise raises a GlomError of the promised class (MatchError; TypeMatchError ∧
+    TypeError for a failed type rule; PathAccessError / CheckError for a failing T access / Check
+    inside the pattern): on a calm pair nothing else can happen. -/
+theorem c09_exact_reject (env : Env) (hwf : WF env = true) (p : Spec) (t : V)
+    (hc : ctorErr p = none) (hd : constDefaults p = true) (hcalm : calm env.cls p t = true)
+    (h : conforms env.cls p t = false) :
+    ∃ e o, (matchGlom env p none t).1 = .error e ∧
+      (denote env.cls (.matchS p none) t).1 = .reject o ∧ classOK env o e.cls = true := by
+  rcases c09_error_class env hwf p t hc hd h with h1 | ⟨e, he, hg⟩
+  · exact h1
+  · exfalso
+    have hnf := c09_calm_no_fault env.cls p none t hcalm
+    have hr := c09_refines env hwf p none t hc
+    rcases hr.cases with ⟨a, l, h1, h2⟩ | ⟨e', og, l, h1, h2, hcl⟩ | ⟨e', l, h1, h2, _⟩
+    · rw [h1] at he; cases he
+    · rw [h1] at he; injection he with he; subst he
+      rw [classOK_glom hcl] at hg; cases hg
+    · rw [h2] at hnf; simp [isFault] at hnf
 
 /-- a failed type rule is a TypeMatchError that is also a TypeError: the type pattern itself,
     and a container pattern given a target of another type -/
@@ -267,6 +318,167 @@ theorem c09_model_checks (env : Env) (f : Facts9) (hwf : WF env = true) (hwf9 : 
         have := c09_unchanged env hwf p t r hc hpp.1.1 hpp.2 hm
         simp [observe, hm, this, valEq_refl]
 
+/-! ### histories: one Match object, many calls, registrations in between -/
+
+/-- **One call, checker form** (what the driver evaluates on every call of a sequence / history):
+    against the class table of the moment the outcome is the denoted verdict, pass / reject is
+    exactly `conforms`, and a default-free pattern returns the target. -/
+theorem c09_call_checks (env : Env) (hwf : WF env = true) (p : Spec) (d : Option Arg) (t : V)
+    (hc : ctorErr p = none) :
+    checkCall env.cls p d t (observe env (matchGlom env p d t)) = true := by
+  have hr := c09_refines env hwf p d t hc
+  have hsat := rel_obsSat hr
+  unfold checkCall
+  simp only [Bool.and_eq_true]
+  refine ⟨⟨hsat, ?_⟩, ?_⟩
+  · cases hd : constDefaults p with
+    | false => simp
+    | true =>
+      simp only [Bool.not_true, Bool.false_or]
+      cases hv : (denote env.cls (.matchS p d) t).1 with
+      | fault c => rfl
+      | pass v =>
+        have := c09_denote_conforms env.cls p d t hc hd (by rw [hv]; rfl)
+        rw [hv] at this
+        simpa [isPass] using this.symm
+      | reject o =>
+        have := c09_denote_conforms env.cls p d t hc hd (by rw [hv]; rfl)
+        rw [hv] at this
+        simp only [isPass] at this
+        simp [← this]
+  · cases hpp : (pureP p && d.isNone && wfV t) with
+    | false => simp
+    | true =>
+      simp only [Bool.and_eq_true] at hpp
+      simp only [Bool.not_true, Bool.false_or]
+      have hdn : d = none := by cases d <;> simp_all
+      subst hdn
+      cases hm : (matchGlom env p none t).1 with
+      | error e => simp [observe, hm]
+      | ok r =>
+        have := c09_unchanged env hwf p t r hc hpp.1.1 hpp.2 hm
+        simp [observe, hm, this, valEq_refl]
+
+/-- **Histories** (checker theorem, the form evaluated on the implementation's observations).
+    One Match object is applied to any sequence of targets — instances of the same few classes
+    among them, conforming and not — while classes are registered as virtual subclasses of ABCs
+    in between: every call decides its target by `isinstance` *as it is at that call*.  Nothing
+    the matcher saw before (the answer for another instance of the same class, a failed match
+    before the registration) has any influence.  For all histories of any length, from any
+    class table. -/
+theorem c09_history_checks (env : Env) (hwf : WF env = true) (p : Spec) (d : Option Arg)
+    (hc : ctorErr p = none) :
+    ∀ (steps : List HStep) (ct : ClassTable), checkHist p d steps ct (obsHist env p d steps ct) = true := by
+  intro steps
+  induction steps with
+  | nil => intro ct; rfl
+  | cons st rest ih =>
+    intro ct
+    cases st with
+    | call t =>
+      have h1 := c09_call_checks (env.withCls ct) (by rw [WF_withCls]; exact hwf) p d t hc
+      simp only [obsHist, runHist, List.map_cons, Option.map_some, checkHist, Bool.and_eq_true]
+      exact ⟨h1, ih ct⟩
+    | register a k =>
+      simp only [obsHist, runHist, List.map_cons, Option.map_none, checkHist]
+      exact ih (registerCls ct a k)
+
+/-- the type rule asks `isinstance(target, type)` about *this* target, now: it passes exactly
+    when the answer is yes (whatever the metaclass of the type: a class is never called) -/
+theorem c09_type_rule_iff (env : Env) (n : String) (t : V) :
+    (matchGlom env (.ty n) none t).1 = .ok t ↔ isInst env.cls t n = true := by
+  cases h : isInst env.cls t n <;> simp [matchGlom, eval, h]
+
+/-- … so a class registered as a virtual subclass after a first, failed, match is accepted from
+    then on: once `a.register(k)` has run, every target whose class has `k` in its MRO matches `a` -/
+theorem c09_sees_registration (env : Env) (ct : ClassTable) (a k : String) (t : V)
+    (hrow : ct.any (·.1 == t.cls) = true ∨ t.cls = k) (h : (ct.mro t.cls).contains k = true) :
+    (matchGlom (env.withCls (registerCls ct a k)) (.ty a) none t).1 = .ok t := by
+  rw [c09_type_rule_iff]
+  unfold isInst
+  have : (registerCls ct a k).isSub t.cls a = true := registerCls_isSub ct a k t.cls hrow h
+  simp [Env.withCls, this]
+
+/-- **A copy of a pattern decides like the pattern.**  `copy.copy`, `copy.deepcopy` and a pickle
+    round trip rebuild the pattern's nodes from their attribute values; since the markers for "no
+    default given" survive each of them as the very same object (facts: `WF9` ⊇ `markersOK`,
+    re-checked on every run), every target gets the same outcome and the same callables run. -/
+theorem c09_copy_invariant (env : Env) (f : Facts9) (hwf9 : WF9 env f = true) (how : String)
+    (hh : how ∈ ["copy", "deepcopy", "pickle"]) (p : Spec) (d : Option Arg) (t : V) :
+    matchGlom env (copySpec f.identity how p) (copyDflt (markerKept f.identity "_MISSING" how) "_MISSING" d) t
+      = matchGlom env p d t := by
+  have hm : markersOK f.identity = true := by
+    unfold WF9 at hwf9
+    simp only [Bool.and_eq_true] at hwf9
+    exact hwf9.1.1.1.1.1.1.1.1.1.1.1.1.2
+  rw [copySpec_id hm hh, (markersOK_kept hm hh).1, copyDflt_kept]
+
+/-- **Regex** matches exactly the strings the pattern denotes — `fullmatch` (the default): the
+    whole string is in the language of the pattern; `re.match`: some prefix is; `re.search`: some
+    substring is — returns the target, and rejects everything else (a non-string included) with a
+    MatchError.  (`ReLang` is the language of a catalogue pattern: per item one character of its
+    class, one or more under `+`; that CPython's `re` agrees is validated case by case.) -/
+theorem c09_regex (env : Env) (hwf : WF env = true) (items : List ReItem) (f : ReFunc) (t : V) :
+    ((matchGlom env (.regex items f) none t).1 = .ok t ↔ ∃ s, t = .str s ∧ reAccepts items f s.toList) ∧
+    (∀ e, (matchGlom env (.regex items f) none t).1 = .error e → env.exc.isSub e.cls "MatchError" = true) := by
+  have hw := WF.facts hwf
+  have isMatch : ∀ i, ("Regex.glomit", i, Origin.comb) ∈ siteOrigins →
+      env.exc.isSub (raiseAt env "Regex.glomit" i).cls "MatchError" = true := by
+    intro i hm
+    have := hw.raise_ok ("Regex.glomit", i, .comb) hm
+    unfold classOK at this
+    simp only [Bool.and_eq_true] at this
+    exact this.2
+  rw [matchGlom_none]
+  cases t with
+  | str s =>
+    simp only [eval]
+    cases hm : reMatches items f s with
+    | true =>
+      refine ⟨⟨fun _ => ⟨s, rfl, (reMatches_iff items f s).mp hm⟩, fun _ => by simp⟩, ?_⟩
+      intro e he; simp at he
+    | false =>
+      refine ⟨⟨fun h => by simp at h, ?_⟩, ?_⟩
+      · rintro ⟨s', hs, hacc⟩
+        injection hs with hs; subst hs
+        rw [(reMatches_iff items f s).mpr hacc] at hm; cases hm
+      · intro e he
+        simp only [Bool.false_eq_true, if_false] at he
+        injection he with he; subst he
+        exact isMatch 1 (by simp [siteOrigins])
+  | _ =>
+    simp only [eval]
+    refine ⟨⟨fun h => by simp at h, fun ⟨s, hs, _⟩ => by simp at hs⟩, ?_⟩
+    intro e he
+    injection he with he; subst he
+    exact isMatch 0 (by simp [siteOrigins])
+
+/-! ### key precedence and the `required` set, for every kind of key -/
+
+/-- **`_precedence`, against the extracted chain**: the model's `precedence` is the solution of
+    the recursive equation that the if-chain extracted from `_precedence` denotes (`precStep`
+    gives each extracted source text its meaning and runs the chain once, asking its argument
+    for the items of a tuple / frozenset) — for a bare key of every kind (literal, type, tuple /
+    frozenset of any nesting, callable, any spec object with a `glomit`) and for the same key
+    wrapped in `Optional(...)` / `Required(...)`.  A chain with a test or statement the reading
+    does not know makes `precStep` undefined, so the equation cannot hold by accident. -/
+theorem c09_precedence_chain (env : Env) (f : Facts9) (hwf9 : WF9 env f = true) (kind : KeyKind) (s : Spec) :
+    precStep precedence f.precedenceRules kind s = some (precedence s) := by
+  have hp : f.precedenceRules = expectedPrecedence := by
+    unfold WF9 at hwf9
+    simp only [Bool.and_eq_true, beq_iff_eq] at hwf9
+    exact hwf9.1.1.1.1.1.1.1.1.1.2
+  rw [hp]; exact precStep_expected kind s
+
+/-- **Which keys are required**: the `required` set `_handle_dict` computes from `_precedence`
+    (`_precedence(key) == 0 and type(key) is not Optional or type(key) is Required`) holds exactly
+    the keys the documentation names — the keys matched by `==` (literals, and tuples / frozensets
+    made of such, at any nesting) unless wrapped in Optional, and any other key only when wrapped in
+    Required — for every dict pattern Python can construct, whatever kinds of keys it mixes. -/
+theorem c09_required_rule (es : List (KeyKind × Spec × Spec)) (hc : ctorErr (.dict es) = none) :
+    requiredIdx es 0 = requiredRef es 0 :=
+  required_eq es 0 (ctorErrD_hashable (by simpa [ctorErr] using hc))
+
 /-- a pattern Python cannot construct: the constructor's error is the outcome -/
 theorem c09_ctor_checks (ct : ClassTable) (p : Spec) (d : Option Arg) (t : V) (e : PyExc) (o : Obs9)
     (hc : ctorErr p = some e) (ho : o.main = .ctor e.cls) : checkC09 ct p d t o = true := by
@@ -330,11 +542,75 @@ theorem c09_unchanged_needs_wf :
 theorem c09_unchanged_needs_pure :
     (matchGlom genEnv (.dict [(.opt (some (.const (.int 0))), .lit (.str "n"), .ty "int")]) none (.dict [])).1
       = .ok (.dict [(.str "n", .int 0)]) := by decide
+-- calm: the example pattern on its example target, and on the near misses that do not compare
+-- incomparable values
+example : calm genEnv.cls exPat exTarget = true := by decide
+example : calm genEnv.cls exPat (.list [.dict [(.str "id", .int 1)]]) = true := by decide
+/-- without `calm`: the target conforms (to the second alternative), but evaluating the first
+    alternative compares an int with a str and the match ends in that TypeError -/
+theorem c09_exact_needs_calm :
+    calm genEnv.cls (.or [.mexpr .m .gt (.const (.str "a")), .ty "int"] none) (.int 1) = false ∧
+    conforms genEnv.cls (.or [.mexpr .m .gt (.const (.str "a")), .ty "int"] none) (.int 1) = true ∧
+    (matchGlom genEnv (.or [.mexpr .m .gt (.const (.str "a")), .ty "int"] none) none (.int 1)).1
+      = .error ⟨"TypeError"⟩ := by decide
 -- completeness excludes faults: the target conforms to the second alternative, but evaluating
 -- the first one raises
 example : conforms genEnv.cls (.or [.mexpr .m .gt (.const (.str "a")), .ty "int"] none) (.int 1) = true ∧
     (matchGlom genEnv (.or [.mexpr .m .gt (.const (.str "a")), .ty "int"] none) none (.int 1)).1
       = .error ⟨"TypeError"⟩ := by decide
+-- types whose metaclass is not `type` are matched by isinstance (the generated ABC rows)
+example : (matchGlom genEnv (.ty "Mapping") none (.dict [])).1 = .ok (.dict []) := by decide
+example : (matchGlom genEnv (.ty "Integral") none (.bool true)).1 = .ok (.bool true) := by decide
+example : (matchGlom genEnv (.ty "Sequence") none (.dict [])).1 = .error ⟨"TypeMatchError"⟩ := by decide
+example : (matchGlom genEnv (.ty "Color") none (.str "red")).1 = .error ⟨"TypeMatchError"⟩ := by decide
+example : (matchGlom genEnv (.ty "Color") none (.obj "Color#RED")).1 = .ok (.obj "Color#RED") := by decide
+-- an instance-dependent type: two instances of ONE class, in one call — the second is judged
+-- by itself
+example : (matchGlom genEnv (.list [.ty "HasLabel"]) none (.list [.obj "Rec#a+label", .obj "Rec#b"])).1
+    = .error ⟨"TypeMatchError"⟩ := by decide
+example : (matchGlom genEnv (.list [.ty "HasLabel"]) none (.list [.obj "Rec#a+label", .obj "Rec#c+label+flag"])).1
+    = .ok (.list [.obj "Rec#a+label", .obj "Rec#c+label+flag"]) := by decide
+-- a history: Match(A0) on a K1 (subclass of K0), `A0.register(K0)`, the same target again
+private def exHist : List HStep :=
+  [.call (.obj "K1#x"), .register "A0" "K0", .call (.obj "K1#x"), .call (.obj "K2#y")]
+private def exTable : ClassTable := worldRows genEnv.cls [("K1", "K0")]
+example : obsHist genEnv (.ty "A0") none exHist exTable =
+    [some (.exc "TypeMatchError" true true true true false false []), none,
+     some (.ok (.obj "K1#x") []), some (.exc "TypeMatchError" true true true true false false [])] := by decide
+-- what an implementation shows that remembers the first answer for (K1, A0): rejected by the checker
+example : checkHist (.ty "A0") none exHist exTable
+    [some (.exc "TypeMatchError" true true true true false false []), none,
+     some (.exc "TypeMatchError" true true true true false false []),
+     some (.exc "TypeMatchError" true true true true false false [])] = false := by decide
+-- hypotheses of c09_sees_registration are satisfiable
+example : exTable.any (·.1 == (V.obj "K1#x").cls) = true ∧ (exTable.mro (V.obj "K1#x").cls).contains "K0" = true := by
+  decide
+/-- without the row hypothesis: registering `object` itself does not reach a class the table has
+    no row for (the table lists every class a case uses; the default MRO is a fallback) -/
+theorem c09_sees_registration_needs_row :
+    (registerCls [] "A0" "object").isSub "Zed" "A0" = false := by decide
+-- copies: with the generated marker table a deep copy is the pattern itself
+example : (matchGlom genEnv (copySpec Generated.identityMarkers "deepcopy" exPat) none exTarget).1
+    = (matchGlom genEnv exPat none exTarget).1 := by decide
+/-- what `copy.deepcopy` makes of a pattern when the `_MISSING` marker does NOT survive it (a
+    marker class without `__deepcopy__` / `__reduce__`): every absent default is a present one,
+    and a non-conforming target gets the marker back instead of an error -/
+theorem c09_copy_needs_marker_identity :
+    (matchGlom genEnv (copySpec [("_MISSING", "deepcopy", false)] "deepcopy" (.ty "int"))
+      (copyDflt false "_MISSING" none) (.str "3")).1 = .ok (.obj "_MISSING") := by decide
+-- Regex: `[^@]+@[^@]+` — "a@b" is in the language, "a@" is not (but has a prefix… no: `+` needs one)
+example : reAccepts [⟨.notAt, true⟩, ⟨.lit '@', false⟩, ⟨.notAt, true⟩] .fullmatch "a@b".toList :=
+  (reMatches_iff _ _ "a@b").mp (by decide)
+example : ¬ reAccepts [⟨.notAt, true⟩, ⟨.lit '@', false⟩, ⟨.notAt, true⟩] .fullmatch "a@".toList :=
+  fun h => absurd ((reMatches_iff _ _ "a@").mpr h) (by decide)
+example : reAccepts [⟨.digit, true⟩] .search "ab12c".toList := (reMatches_iff _ _ "ab12c").mp (by decide)
+-- precedence: a tuple key is as late as its latest item; a chain with an unknown test has no reading
+example : precedence (.tuple [.lit (.str "t"), .ty "int"]) = 2 ∧
+    precedence (.tuple [.lit (.str "p"), .fset [.lit (.int 1)]]) = 0 ∧ precedence (.pred 0 "is_str") = 1 := by decide
+example : precStep precedence [("type(match) is type", "return 2")] .plain (.ty "int") = none := by decide
+example : requiredIdx [(.plain, .lit (.str "a"), .ty "int"), (.plain, .ty "str", .ty "int"),
+    (.opt none, .lit (.str "b"), .ty "int"), (.req, .pred 0 "is_str", .ty "int"),
+    (.plain, .tuple [.lit (.str "p"), .lit (.int 1)], .ty "int")] 0 = [0, 3, 4] := by decide
 -- constructor errors
 example : ctorErr (.dict [(.opt none, .ty "int", .ty "int")]) = some ⟨"ValueError"⟩ := by decide
 example : ctorErr (.dict [(.req, .lit (.str "a"), .ty "int")]) = some ⟨"ValueError"⟩ := by decide
